@@ -374,6 +374,22 @@ func genLimits(g *core.Gen, r *core.Rand, keys []keyT) []caseSpec {
 		out = append(out, caseSpec{class: "gen:limit:" + class + ":" + wrapperName[wrapper], sp: b.finish(items, nil)})
 	}
 	flagSets := []txscript.ScriptFlags{txscript.StandardVerifyFlags, consensusAll, txscript.ScriptBip16, 0}
+	// per-script state: the op count and the altstack do not carry over from scriptSig to scriptPubKey
+	// (bare spends with a non-push scriptSig; only without P2SH-form / SIGPUSHONLY)
+	for _, fl := range flagSets {
+		for _, n := range []int{100, 150, 201} {
+			b := buildSpend(r, wBare, cat(rep(0x61, n), []byte{0x51}), randShape(r), fl, nil)
+			out = append(out, caseSpec{class: "gen:limit:opcount-two-scripts:bare", sp: b.finish(nil, rep(0x61, n))})
+			b = buildSpend(r, wBare, cat(rep(0x51, n), rep(0x6d, n/2), rep(0x75, n%2), []byte{0x51}), randShape(r), fl, nil)
+			out = append(out, caseSpec{class: "gen:limit:stack-two-scripts:bare", sp: b.finish(nil, cat(rep(0x51, 1000-n), rep(0x6d, (1000-n)/2), rep(0x75, (1000-n)%2)))})
+		}
+		b := buildSpend(r, wBare, []byte{0x6c}, randShape(r), fl, nil) // FROMALTSTACK
+		out = append(out, caseSpec{class: "gen:limit:altstack-two-scripts:bare", sp: b.finish(nil, []byte{0x51, 0x6b})})
+		b = buildSpend(r, wBare, []byte{0x51, 0x6b, 0x51}, randShape(r), fl, nil) // leaves an item on the altstack
+		out = append(out, caseSpec{class: "gen:limit:altstack-left:bare", sp: b.finish(nil, nil)})
+		b = buildSpend(r, wBare, []byte{0x68, 0x51}, randShape(r), fl, nil) // IF in scriptSig, ENDIF in scriptPubKey
+		out = append(out, caseSpec{class: "gen:limit:cond-two-scripts:bare", sp: b.finish(nil, []byte{0x51, 0x63})})
+	}
 	for _, fl := range flagSets {
 		for w := 0; w < nWrappers; w++ {
 			// operation count 200 / 201 / 202 (NOPs), and with CHECKMULTISIG key counts
